@@ -334,10 +334,10 @@ def exhaustive_optionals(binpath, res):
 
 def main(ctx):
     res = common.Result()
-    n = 500 if not ctx.thorough else 18000
+    n = 500 if not ctx.thorough else 100000
     for p in common.pmap(shard, [(ctx.bin, ctx.seed, s, n) for s in range(common.NPROC)]):
         res.merge(p)
-    from_meta(ctx.bin, res, ctx.seed, 400 if not ctx.thorough else 8000)
+    from_meta(ctx.bin, res, ctx.seed, 400 if not ctx.thorough else 30000)
     exhaustive_optionals(ctx.bin, res)
     res.extras["exhaustive_subspaces"] = ["every subset of optional members at each struct level of SLSA v0.1/v0.2 predicates, "
                                           "each also inside a v0.1 statement under every declared predicate type"]
